@@ -96,7 +96,7 @@ func main() {
 		} else {
 			fmt.Println("SM ERROR", err)
 		}
-		for _, b := range []string{"S2", "S3", "S4"} {
+		for _, b := range []string{"S2", "S3", "S4", "RU"} {
 			base, err := explore.GetBase(b, cfgByName("ROLL"), 0)
 			if err != nil {
 				fmt.Println(b, "ERROR", err)
